@@ -781,10 +781,17 @@ pub fn conv(out_dir: &str, files: usize, thorough: bool, seed: u64) -> i32 {
     for e in 0..=2047u64 {
         for m in [0u64, 1, (1 << 52) - 1, r.next() & ((1 << 52) - 1)] {
             f64s.push(e << 52 | m);
-            if thorough {
+            // the negative of every class (thorough: of every exponent): -0, negative subnormals, -inf, NaNs with the sign bit set
+            if thorough || e <= 1 || e >= 2046 || e == 1023 {
                 f64s.push(1 << 63 | e << 52 | m);
             }
         }
+    }
+    // NaN payloads, quiet and signalling, both signs; values that are exactly an f32
+    f64s.extend([0xfff8_0000_0000_0000u64, 0xfff0_0000_0000_0001, 0x7ff0_0000_0000_0001, 0xffff_ffff_ffff_ffff, 0x7fff_ffff_ffff_ffff, 0xfff4_0000_0000_0000]);
+    for b in [0.1f32, f32::MAX, f32::MIN_POSITIVE, f32::EPSILON, 16777217.0, 1e13, 33997272.0] {
+        f64s.push((b as f64).to_bits());
+        f64s.push((-(b as f64)).to_bits());
     }
     for _ in 0..(if thorough { 20000 } else { 1500 }) {
         f64s.push(r.next());
